@@ -489,6 +489,24 @@ func (c *Chain) Deliver(ts TxSpec) (res TxResult) {
 
 // ---- helpers over state ----
 
+// Simulate runs the transaction through baseapp.Simulate (ante handler and messages on a discarded branch).
+// The returned text is informational; a simulated transaction must leave no trace whatever it returns.
+func (c *Chain) Simulate(ts TxSpec) (out string) {
+	bz, err := c.BuildTx(ts)
+	if err != nil {
+		return "build: " + err.Error()
+	}
+	defer func() {
+		if r := recover(); r != nil {
+			out = "panic: " + fmt.Sprint(r)
+		}
+	}()
+	if _, _, err := c.App.Simulate(bz); err != nil {
+		return "rejected"
+	}
+	return ""
+}
+
 func (c *Chain) Bal(addr sdk.AccAddress, denom string) *big.Int {
 	return c.App.BankKeeper.GetBalance(c.Ctx(), addr, denom).Amount.BigInt()
 }
